@@ -21,6 +21,10 @@ from simftp.world import aioftp
 
 PROP = "C08"
 SPECIAL = ['"', '""', '"a', 'a"', '"a"', 'a"b', 'a""b', '"""', "a b", "a  b", " lead", "  two lead", "a;b", "a=b", "Type=dir;", "Type=dir; x", "k=v; n", "perm=el;size=0; f", "a -> b", " -> ", "-a", "-", "--", "-rw-r--r--", "250 x", "250-x", "250", "1", "007", "a\\b", "\\", "100%", "%20", "%s", "a,b", "(1,2,3,4,5,6)", "(|||40000|)", "é", "́x", "🙂", "𝒳y", "中文", "ÄÖÜ", "x.y.z", "...", "..x", ".hidden", "a\tb", "~", "*", "?", "[a]", "a'b", "`x`", "$HOME", "a:b", "C:", "Jan 1 2020", "Nov 14 22:13 name", "drwxr-xr-x 1 none none 0 Jan  1  2001 x"]
+# characters that some text APIs treat as line boundaries or white space, none of which ends an
+# FTP control line (only CR LF does): VT, FF, FS, GS, RS, US, NEL, LS, PS; DEL, C0 controls, zero
+# width and bidi marks
+SPECIAL += ["a\x0bb", "a\x0cb", "a\x1cb", "a\x1db", "a\x1eb", "a\x1fb", "a\x85b", "a\u2028b", "a\u2029b", "\x0bx", "a\x7fb", "a\x01b", "a\x1bb", "a\u200bb", "\ufeffx", "a\u202eb", "a\xa0b", "\xa0x", "a\u3000b"]
 SPECIAL = [x.rstrip() for x in SPECIAL if x.rstrip()]
 CHARS = 'abcXYZ019 "\';=-_.\\%,()|>:[]éж中🙂́'
 
@@ -99,6 +103,35 @@ def run_case(case):
                     info["ops"] += 1
                     if st.get("type") != "dir":
                         bad("stat-hits-another-object", op, f"stat({n!r}) -> {st!r}")
+                    # the name as the first component of the argument (not only as the last one and
+                    # not only implied by the working directory): a file inside it, addressed from
+                    # the parent, and the listing *of* the named directory by both commands
+                    probe = P(n) / "probe.bin"
+                    for raw in ("MLSD", "LIST"):
+                        op = f"list-of-named-dir:{raw}"
+                        got = sorted(str(p) for p, inf in await client.list(n, raw_command=raw))
+                        info["ops"] += 1
+                        if got != []:
+                            bad("listed-under-another-name", op, f"listing of the empty directory {n!r} (argument {n!r}) returned {got!r}")
+                    op = "upload_stream-into-named-dir"
+                    async with client.upload_stream(probe) as s:
+                        await s.write(b"probe")
+                    info["ops"] += 1
+                    want[str(cur / probe)] = b"probe"
+                    if not expect_tree(want, op):
+                        return
+                    for raw in ("MLSD", "LIST"):
+                        op = f"list-of-named-dir:{raw}"
+                        got = sorted(str(p) for p, inf in await client.list(n, raw_command=raw))
+                        info["ops"] += 1
+                        if got != [str(probe)]:
+                            bad("listed-under-another-name", op, f"listing of {n!r} returned {got!r}, expected [{str(probe)!r}]")
+                    op = "remove_file-in-named-dir"
+                    await client.remove_file(probe)
+                    info["ops"] += 1
+                    want.pop(str(cur / probe))
+                    if not expect_tree(want, op):
+                        return
                     op = "change_directory"
                     await client.change_directory(n)
                     info["ops"] += 1
